@@ -19,16 +19,18 @@ ROWS = {
     'rxd': (5, ('refdis', 'x', 'Dis'), 50, False),
     'sat': (6, ('str', '@x'), 60, False),         # same string form as Ref('x')
     'noid': (7, None, 70, False),
+    'i0': (8, ('int', 0), 80, False),             # falsy ids: 0 and the empty string
+    'sempty': (11, ('str', ''), 110, False),
 }
 ND = ('notdict', 9)
-KEYS = ['x', '5', '@x', "@x 'Dis'", 'zz']
+KEYS = ['x', '5', '@x', "@x 'Dis'", 'zz', '0', '']
 
 
 def run(ctx):
     rng = random.Random(ctx.seed + 15)
     thorough = ctx.tier == 'thorough' or ctx.escalate
     ctx.coverage['rule'] = ('as C14, with row ids of kinds str, int, Ref, Ref with display name, ids whose str() collide '
-                            '(5 / "5", Ref("x") / "@x"), rows without id; after every mutator get()/[] of every key in play, '
+                            '(5 / "5", Ref("x") / "@x"), falsy ids (0, the empty string), rows without id; after every mutator get()/[] of every key in play, '
                             'on the grid, on slices of it and on filtered grids, with and without intermediate lookups '
                             '(index built / not yet built); a lookup is right when it returns a row that is currently in the grid '
                             'and whose id has that string form, and KeyError/default exactly when there is none')
